@@ -277,6 +277,45 @@ Proof.
   apply null_fold_keys in H. destruct H as [H|H]; [exact H | congruence].
 Qed.
 
+(* ---------- a conditional field that is already set is not overwritten ---------- *)
+Lemma carry_fold_protected new1 l k : NoDup (map fst l) -> omem k new1 = true -> smem k conds = true ->
+  forall acc ns, oget k (fst (fold_left (carry_step conds new1) l (acc, ns))) =
+                 match oget k l with Some ov => Some ov | None => oget k acc end.
+Proof.
+  intros ND Hk Hc. induction l as [|[g ov] r IH]; intros acc ns; [reflexivity|].
+  inversion ND as [|? ? Hg ND']; subst. cbn [fold_left]. unfold carry_step at 2.
+  unfold oget at 2. cbn [aget]. fold (oget k r).
+  destruct (bytes_eqb k g) eqn:E.
+  - apply bytes_eqb_eq in E; subst g. rewrite Hk, Hc. cbn [negb].
+    rewrite IH by exact ND'. rewrite oget_notin by exact Hg. apply oget_oset_same.
+  - apply beq_false in E.
+    destruct (negb (omem g new1)); [|destruct (smem g conds)]; rewrite IH by exact ND';
+      destruct (oget k r); rewrite ?oget_oset_other by exact E; reflexivity.
+Qed.
+
+Theorem conditional_keeps o new0 f v ov :
+  NoDup (dom o) -> NoDup (dom new0) ->
+  oget f o = Some ov -> oget f new0 = Some v -> is_null v = false -> is_meta f = false ->
+  smem f conds = true ->
+  oget f (snd (updateJSON user conds false t (Some o) new0)) = Some ov.
+Proof.
+  intros NDo NDn Ho Hf Hv M C. unfold updateJSON.
+  set (del := deleted_fields new0). set (new1 := fold_left (null_step user t new0) del new0).
+  cbn [option_map]. set (o1 := fold_left (fun acc d => odel d acc) del o).
+  assert (D : ~ In f del).
+  { intro H. apply (deleted_null new0 f NDn) in H. rewrite Hf in H. inversion H; subst. discriminate. }
+  assert (F1 : oget f new1 = Some v).
+  { unfold new1. rewrite null_fold_other; [exact Hf|]. intros d Hd. destruct (nonmeta_ne_stamp f d M).
+    repeat split; try assumption. intro; subst; contradiction. }
+  assert (Fo : oget f o1 = Some ov) by (unfold o1; now rewrite odel_fold_other).
+  assert (ND1 : NoDup (dom o1)) by now apply odel_fold_nodup.
+  match goal with |- context [fold_left (carry_step conds new1) o1 (new1, ?n)] => set (ns0 := n) end.
+  destruct (fold_left (carry_step conds new1) o1 (new1, ns0)) as [new2 ns] eqn:E. cbn [snd].
+  assert (E1 : new2 = fst (fold_left (carry_step conds new1) o1 (new1, ns0))) by now rewrite E.
+  rewrite stamp_fold_other by (intros g _ _; now apply nonmeta_ne_stamp).
+  rewrite E1, carry_fold_protected; [now rewrite Fo | exact ND1 | now rewrite omem_oget, F1 | exact C].
+Qed.
+
 (* ---------- stamps move exactly when the value does ---------- *)
 Lemma stamp_step_user del ns acc g f :
   nonempty user = true -> f <> s_bodyid -> f <> s_userf -> ~ In f del -> is_meta f = false -> ~ In (fuser f) ns ->
